@@ -110,13 +110,10 @@ Definition flips (k k' : conn) : bool := negb (c_latch k) && c_latch k'.
 
 (* chSend is a bounded queue and c_nq is its length *)
 Definition qok (k : conn) : Prop :=
-  c_nq k = Z.of_nat (length (c_sendq k)) /\ c_nq k <= chcap.
+  c_nq k = Z.of_nat (length (c_sendf k) + length (c_sendq k)) /\ c_nq k <= chcap.
 
-Lemma deq_length l x r : deq l = Some (x, r) -> length l = S (length r).
-Proof.
-  unfold deq. intro H. destruct (rev l) as [|y t] eqn:E; [discriminate|]. inv H.
-  rewrite <- (rev_length l), E, rev_length. reflexivity.
-Qed.
+Lemma rev_cons_length {A} (l : list A) x r : rev l = x :: r -> length l = S (length r).
+Proof. intro H. rewrite <- (rev_length l), H. reflexivity. Qed.
 
 (* what one step may do to one connection, with the events it posts *)
 Record kupd (k k' : conn) (new : list kev) : Prop := mkKupd {
@@ -209,7 +206,10 @@ Ltac ku_q_tac :=
   unfold qok, chcap; simpl;
   let Q1 := fresh "Q1" in let Q2 := fresh "Q2" in
   intros (Q1 & Q2);
-  repeat match goal with H : deq _ = Some _ |- _ => apply deq_length in H end;
+  repeat match goal with H : rev _ = _ :: _ |- _ => apply rev_cons_length in H end;
+  repeat match goal with H : c_sendf _ = _ |- _ => rewrite H in * end;
+  repeat match goal with H : length (c_sendq _) = _ |- _ => rewrite H in * end;
+  simpl length in *;
   repeat match goal with H : (_ <? _) = true |- _ => apply Z.ltb_lt in H end;
   unfold chcap in *; split; lia.
 
@@ -246,20 +246,23 @@ Proof.
     right.
     destruct p; eexists _, []; (apply eff_set; [exact H | ku_tac]).
   - (* RGot *)
-    right.
     destruct p.
-    + destruct (c_latch k || c_wfail k) eqn:B; eexists _, []; (apply eff_set; [exact H | ku_tac]).
-    + destruct (c_latch k || c_wfail k) eqn:B; eexists _, []; (apply eff_set; [exact H | ku_tac]).
-    + eexists _, []. apply eff_set; [exact H | ku_tac].
-    + destruct (below_working (c_status k)) eqn:B.
+    + destruct (write_fails k) eqn:B; [right; eexists _, []; (apply eff_set; [exact H | ku_tac])|].
+      destruct (stalled k); [left; reflexivity|].
+      right; eexists _, []; (apply eff_set; [exact H | ku_tac]).
+    + destruct (write_fails k) eqn:B; [right; eexists _, []; (apply eff_set; [exact H | ku_tac])|].
+      destruct (stalled k); [left; reflexivity|].
+      right; eexists _, []; (apply eff_set; [exact H | ku_tac]).
+    + right. eexists _, []. apply eff_set; [exact H | ku_tac].
+    + right. destruct (below_working (c_status k)) eqn:B.
       * eexists _, []. apply eff_set; [exact H | ku_tac].
       * eexists _, [KMsg m]. apply eff_set_msg; [exact H | ku_tac].
-    + destruct (below_working (c_status k)) eqn:B; eexists _, []; (apply eff_set; [exact H | ku_tac]).
-    + eexists _, []. apply eff_set; [exact H | ku_tac].
-    + eexists _, []. apply eff_set; [exact H | ku_tac].
-    + eexists _, []. apply eff_set; [exact H | ku_tac].
-    + eexists _, []. apply eff_set; [exact H | ku_tac].
-    + eexists _, []. apply eff_set; [exact H | ku_tac].
+    + right. destruct (below_working (c_status k)) eqn:B; eexists _, []; (apply eff_set; [exact H | ku_tac]).
+    + right. eexists _, []. apply eff_set; [exact H | ku_tac].
+    + right. eexists _, []. apply eff_set; [exact H | ku_tac].
+    + right. eexists _, []. apply eff_set; [exact H | ku_tac].
+    + right. eexists _, []. apply eff_set; [exact H | ku_tac].
+    + right. eexists _, []. apply eff_set; [exact H | ku_tac].
   - (* RClose *)
     right. apply (eff_close_then (k_rp RDone) s c k H); intro L; ku_tac.
   - left. reflexivity.
@@ -273,13 +276,15 @@ Proof.
   destruct (c_wp k) eqn:Hwp.
   - destruct (c_latch k) eqn:L.
     { right. eexists _, []. apply eff_set; [exact H | ku_tac]. }
-    destruct (deq (c_sendq k)) as [[x r]|] eqn:Hq; [|left; reflexivity].
-    right. eexists _, []. apply eff_set; [exact H | ku_tac].
+    destruct (c_sendf k) as [|x r] eqn:Hf.
+    + destruct (rev (c_sendq k)) as [|x r] eqn:Hq; [left; reflexivity|].
+      right. eexists _, []. apply eff_set; [exact H | ku_tac].
+    + right. eexists _, []. apply eff_set; [exact H | ku_tac].
   - destruct (c_latch k) eqn:L.
     { right. eexists _, []. apply eff_set; [exact H | ku_tac]. }
-    destruct (c_wfail k) eqn:F.
+    destruct (c_wfail k || c_eof k && c_wstall k) eqn:F.
     { right. eexists _, []. apply eff_set; [exact H | ku_tac]. }
-    destruct (c_wstall k) eqn:St; [left; reflexivity|].
+    destruct (stalled k) eqn:St; [left; reflexivity|].
     right. destruct x; eexists _, []; (apply eff_set; [exact H | ku_tac]).
   - right. apply (eff_close_then (k_wp WDone) s c k H); intro L; ku_tac.
   - left. reflexivity.
@@ -1295,7 +1300,7 @@ Proof.
       * rewrite Xe in St. revert St. apply set_conn_moved with k; [exact H|]. apply rp_neq. rewrite R. discriminate.
       * revert St. destruct p; (apply set_conn_moved with k; [exact H|]);
           intro E; apply (f_equal c_rp) in E; simpl in E; congruence.
-    + revert St.
+    + revert St. unfold stalled. rewrite Xe. cbn [negb andb].
       destruct p; repeat match goal with |- context [if ?b then _ else _] => destruct b end;
         try (apply post_moved; reflexivity);
         (apply set_conn_moved with k; [exact H|]);
@@ -1589,10 +1594,16 @@ Proof.
   destruct (c_latch k); [repeat apply reach_step|]; exact R.
 Qed.
 
+Lemma reach_settle_phase c s : reachable s -> reachable (settle_phase c s).
+Proof.
+  intro R. unfold settle_phase. destruct (aget c (conns s)) as [k|]; [|exact R].
+  apply reach_settle_conn. exact R.
+Qed.
+
 Lemma reach_settle_one c s : reachable s -> reachable (settle_one c s).
 Proof.
-  intro R. unfold settle_one. destruct (aget c (conns s)) as [k|]; [|exact R].
-  apply reach_settle_H. apply reach_settle_conn. exact R.
+  intro R. unfold settle_one.
+  apply reach_settle_H. repeat apply reach_settle_phase. apply reach_settle_conn. exact R.
 Qed.
 
 Lemma reach_iter n l : forall s, reachable s -> reachable (iter_label n l s).
@@ -1739,7 +1750,7 @@ Qed.
 
 Lemma chsend_bounded n tr c k :
   aget c (conns (run_from (init_with n) tr)) = Some k ->
-  c_nq k = Z.of_nat (length (c_sendq k)) /\ 0 <= c_nq k <= chcap.
+  c_nq k = Z.of_nat (length (c_sendf k) + length (c_sendq k)) /\ 0 <= c_nq k <= chcap.
 Proof.
   assert (G : forall tr s, (forall c k, aget c (conns s) = Some k -> qok k) ->
                            forall c k, aget c (conns (run_from s tr)) = Some k -> qok k).
